@@ -214,6 +214,86 @@ def gen_shared_shape(rng):
     return out
 
 
+def gen_recursive_tree(rng):
+    """a recursive document: node objects nest themselves under a list key, so the merged node model points to itself and
+    has no pure root above it; a small sub-object occurs in the node and in another nested object of the node, so its
+    model is used by two models inside the cycle"""
+    ks = rng.sample(WORDS, k=6)
+    ident, kids, tag, extra, a, b = ks
+    tagv = {a: 1, b: 2}
+    if rng.random() < 0.4:
+        tagv[rng.choice(WORDS)] = "s"
+
+    def node(depth):
+        n = {ident: depth, tag: dict(tagv)}
+        n[kids] = [node(depth + 1) for _ in range(rng.randint(1, 2))] if depth < rng.randint(1, 2) else []
+        if depth > 0 or rng.random() < 0.3:
+            n[extra] = {"p": 1, tag: dict(tagv)}
+            if rng.random() < 0.3:
+                n[extra][kids] = []
+        return n
+
+    return node(0)
+
+
+SCALARS_2PASS = [1, 1.5, "a", "123", "1.5", True, "true", None, [1], ["1"], {"q": 1}]
+
+
+def gen_two_pass_merge(rng):
+    """two places with the same key set, where one carries a plain required value for a field and the other a list of
+    objects whose values for that field differ in type or are missing (so it already is Optional[Union[...]]): the
+    merged field needs the simplifier applied to a union of already-simplified parts"""
+    keys = rng.sample(WORDS, k=rng.randint(3, 5))
+    f = keys[0]
+    rest = {k: 1 for k in keys[1:]}
+    single = dict(rest, **{f: rng.choice(SCALARS_2PASS[:7])})
+    many = []
+    for _ in range(rng.randint(2, 4)):
+        o = dict(rest)
+        if rng.random() < 0.8:
+            o[f] = rng.choice(SCALARS_2PASS)
+        many.append(o)
+    if rng.random() < 0.7:
+        many.append(dict(rest))
+    out = {"x": single, "y": many}
+    if rng.random() < 0.3:
+        out = {"y": many, "x": single}
+    if rng.random() < 0.3:
+        out["z"] = {"inner": dict(single), "n": 1}
+    return out
+
+
+CLASH_PAIRS = [("données", "donnees"), ("naïve", "naive"), ("a.b", "ab"), ("user.id", "userid"), ("list", "list_"),
+               ("any", "any_"), ("straße", "strasse"), ("item's", "items"), ("x y", "xy"), ("café", "cafe"),
+               ("field", "field_"), ("user:id", "userid"), ("Ünit", "Unit")]
+ROOT_NAMES = ["List", "Any", "Optional", "Field", "Literal", "BaseModel", "Dict", "Union", "Données", "datetime", "Root"]
+
+
+def gen_name_clash(rng):
+    """different objects whose keys give different registry names that convert to the same class name"""
+    k1, k2 = rng.choice(CLASH_PAIRS)
+    if rng.random() < 0.5:
+        k1, k2 = k2, k1
+    out = {"p": {k1: {"x": 1}}, "q": {k2: {"y": "s"}}}
+    if rng.random() < 0.3:
+        out["r"] = {k1: {"z": [1.5]}, "n": 1}
+    if rng.random() < 0.3:
+        out["p"]["n"] = {"deep": {k2: {"w": True}}}
+    return out
+
+
+def gen_rooted_cycle(rng):
+    """(root name, sample): a root whose name may need conversion and a nested object that refers back to it"""
+    name = rng.choice(ROOT_NAMES)
+    ks = rng.sample(WORDS, k=5)
+    leaf = {ks[0]: 1, ks[1]: "x", ks[2]: 2, ks[3]: 3, ks[4]: None}
+    inner = dict(leaf)
+    inner[ks[4]] = {"q": 1, "back": dict(leaf)}
+    if rng.random() < 0.4:
+        inner[ks[4]]["more"] = {"u": 1.5, "v": [dict(leaf)] if rng.random() < 0.5 else "t"}
+    return name, inner
+
+
 def gen_shared_samples(rng):
     return [gen_shared_shape(rng) for _ in range(rng.randint(1, 2))]
 
